@@ -129,6 +129,28 @@ def bytes_summaries():
                 outs.append((s, Unit()))
         return outs
 
+    @reg(r'^(core|std)::slice::<impl \[u8\]>::get::<(std::ops::)?(RangeFrom|RangeTo|Range)<usize>>$')
+    def s_get_range(ex, st, fn, argv):
+        """checked slicing: None when the range does not fit"""
+        v = as_bytes(ex, st, argv[0])
+        kind = re.search(r'(RangeFrom|RangeTo|Range)<usize>', fn).group(1)
+        rng = argv[1]
+        if kind == 'RangeFrom':
+            lo, hi = rng.fields[0].bv, v.len
+        elif kind == 'RangeTo':
+            lo, hi = b64(0), rng.fields[0].bv
+        else:
+            lo, hi = rng.fields[0].bv, rng.fields[1].bv
+        outs = []
+        for (s, c, bad) in ex.fork_on(st, z3.Or(z3.UGT(lo, hi), z3.UGT(hi, v.len)), (argv[0], lo, hi)):
+            if bad:
+                outs.append((s, mk_option()))
+            else:
+                vv = as_bytes(ex, s, c[0])
+                base, start = (vv, vv.abs) if isinstance(vv, ByteVec) else (vv.base, vv.abs_start)
+                outs.append((s, mk_option(Ref(Cell(SliceVal(base, start + c[1], c[2] - c[1], vv.name), 'slice')))))
+        return outs
+
     @reg(r'^Vec::<u8>::drain::<(std::ops::)?RangeTo<usize>>$')
     def v_drain_to(ex, st, fn, argv):
         v = as_bytes(ex, st, argv[0])
